@@ -4,6 +4,7 @@ from dataclasses import dataclass, field
 from typing_extensions import List, Any, Optional
 import operator
 
+import sqlalchemy.exc
 import sqlalchemy.inspection
 from sqlalchemy import and_, or_, select, Select, func, literal, not_ as sa_not
 from sqlalchemy.orm import Session
@@ -526,7 +527,10 @@ class EQLTranslator:
             return self._handle_contains_operator(query, left, right, operator_name)
 
         mapper = OperatorMapper()
-        return mapper.map_comparison_operator(operation, left, right)
+        try:
+            return mapper.map_comparison_operator(operation, left, right)
+        except sqlalchemy.exc.ArgumentError as error:
+            raise UnsupportedOperatorError(str(error)) from error
 
     def _is_attribute_equality_join(self, query: Comparator) -> bool:
         """
